@@ -69,6 +69,11 @@ def parse_cond(c, syms):
         res = [d, scale(d, -1)]
     else:
         if not negd:
+            # unsigned counters: x != 0 means x >= 1
+            if a.strip() == '0' and re.fullmatch(r'\w+', b.strip()):
+                return extra + [add(tb, L(-1))]
+            if b.strip() == '0' and re.fullmatch(r'\w+', a.strip()):
+                return extra + [add(ta, L(-1))]
             return extra
         res = [d, scale(d, -1)]
     return extra + res
@@ -164,7 +169,7 @@ def check_gates(run, F):
             run.ob('AGG.gate', fn, '%s delegates' % fn.name, leaf == want, fn.loc(), 'body = %s' % leaf)
     fn = F.one('AggValidExt::vmean_filter')
     t = N.tbl(fn)
-    want = N.T((['(min_periods <= n)'], '(sum / n)', []), (['!(min_periods <= n)'], 'NULL', []))
+    want = N.T((['(min_periods <= n)'], '(sum / n)', []), (['(n < min_periods)'], 'NULL', []))
     run.ob('AGG.gate', fn, 'vmean_filter table', t == want, fn.loc(), dtree.show(t))
     return n
 
@@ -314,8 +319,8 @@ def check_tables(run, F):
         env = {b['local']: 'v' for b in _pat_binds(cl[0]['params'][0])}
         t = dtree.table(cl[0]['ch'][0], env)
         w = N.T((['VALID(v)', '(v < score)'], '()', ['total_count AddAssign 1', 'less_than_count AddAssign 1']),
-                (['VALID(v)', '!(v < score)', '(score == v)'], '()', ['total_count AddAssign 1', 'exact_match_count AddAssign 1']),
-                (['VALID(v)', '!(v < score)', '!(score == v)'], '()', ['total_count AddAssign 1']),
+                (['VALID(v)', '(score <= v)', '(score == v)'], '()', ['total_count AddAssign 1', 'exact_match_count AddAssign 1']),
+                (['VALID(v)', '(score <= v)', '(score != v)'], '()', ['total_count AddAssign 1']),
                 (['!VALID(v)'], '()', []))
         t2 = {(frozenset(c.replace('(v == score)', '(score == v)') for c in cs), l, ef) for cs, l, ef in t}
         run.ob('AGG.table', fn, 'percentile_of counting', t2 == w, fn.loc(), dtree.show(t))
